@@ -25,7 +25,9 @@ FieldTypes ==
   { FT("float", n, c, "none", 0) : n \in {16, 32, 64, 8, 17, 128}, c \in {"", "truncated"} } \cup
   { FT("bool", 1, "", "none", 0), FT("void", 8, "", "none", 0), FT("void", 64, "", "none", 0), FT("void", 65, "", "none", 0),
     FT("utf8", 8, "", "none", 0), FT("byte", 8, "", "none", 0) } \cup
-  { FT(b, 8, "", a, c) : b \in {"uint", "utf8", "byte", "void", "bool"}, a \in {"fix", "le", "lt"}, c \in {0, 1, 2} }
+  { FT(b, 8, "", a, c) : b \in {"uint", "utf8", "byte", "void", "bool"}, a \in {"fix", "le", "lt"}, c \in {0, 1, 2} } \cup
+  \* capacities that are not natural numbers: -1 stands for the fraction 5/2, -2 for the integer -2 (rendered by the harness)
+  { FT("uint", 8, "", a, c) : a \in {"fix", "le", "lt"}, c \in {0 - 1, 0 - 2} }
 
 \* name tokens: [t |-> text, legal |-> as the Specification's naming rules decide]
 NameTable ==
@@ -34,10 +36,14 @@ NameTable ==
   { [t |-> x, legal |-> FALSE] : x \in {"truncated", "Saturated", "TRUE", "false", "bool", "BOOL", "void", "Void7", "int", "INT", "uint",
                                       "Uint8", "int64", "q16_8", "UQ1_15", "float", "Float32", "optional", "aligned", "const",
                                       "struct", "super", "template", "enum", "self", "and", "or", "not", "auto", "type", "con",
-                                      "prn", "aux", "nul", "COM1", "lpt9", "_x_", "__", "_a_b_"} }
+                                      "prn", "aux", "nul", "COM1", "lpt9", "_x_", "__", "_a_b_",
+                                      \* characters outside [A-Za-z0-9_] / a leading digit (the harness substitutes the text)
+                                      "UNI_LETTER", "UNI_DIGIT", "UNI_MARK", "9lives", "has-dash"} }
 Dups == {"none", "fieldfield", "fieldconst", "constconst", "caseonly"}          \* caseonly: names differing only by case are distinct
 Kinds == {"struct", "union2", "union1", "union3", "unionpad", "unionconst1"}     \* unionconst1: one variant + one constant
-Modes == {"sealed", "ext0", "extplus8", "extminus8", "extplus3", "none", "both", "extfirst", "sealedtwice", "extexpr", "extthenconst", "sealedthenconst"}
+Modes == {"sealed", "ext0", "extplus8", "extminus8", "extplus3", "none", "both", "extfirst", "sealedtwice", "extexpr", "extthenconst", "sealedthenconst",
+          \* extent expressions that are not natural numbers: longest + 8 + 1/2, a negative number, a string, a boolean, a set
+          "exthalf", "extneg", "extstr", "extbool", "extset"}
 Deps == {"none", "uses_dep", "dep_uses_dep", "uses_dep_array", "uses_nondep"}
 Versions == { <<1, 0>>, <<0, 1>>, <<255, 255>>, <<0, 0>>, <<256, 0>>, <<1, 256>>, <<0, 255>> }
 \* port: [has, id, root ("vendor"/"standard"), allow, svc]
@@ -47,8 +53,10 @@ Ports == { [has |-> FALSE, id |-> 0, root |-> "vendor", allow |-> FALSE, svc |->
          { [has |-> TRUE, id |-> i, root |-> r, allow |-> a, svc |-> TRUE] :
              i \in {0, 255, 256, 383, 384, 511, 512}, r \in {"vendor", "standard"}, a \in BOOLEAN } \cup
          { [has |-> FALSE, id |-> 0, root |-> "vendor", allow |-> FALSE, svc |-> TRUE] }
-TypeNames == { [t |-> "Msg", legal |-> TRUE] } \cup { n \in NameTable : n.t \in {"x1", "Uint8", "int", "_x_", "com", "COM1", "Z9_", "optional"} }
-NsNames == { [t |-> "sub", legal |-> TRUE] } \cup { n \in NameTable : n.t \in {"_q", "Float32", "uint", "__", "lpt", "lpt9", "type"} }
+TypeNames == { [t |-> "Msg", legal |-> TRUE] } \cup { n \in NameTable : n.t \in {"x1", "Uint8", "int", "_x_", "com", "COM1", "Z9_", "optional",
+                                                                                  "UNI_LETTER", "UNI_DIGIT", "UNI_MARK", "9lives", "has-dash"} }
+NsNames == { [t |-> "sub", legal |-> TRUE] } \cup { n \in NameTable : n.t \in {"_q", "Float32", "uint", "__", "lpt", "lpt9", "type",
+                                                                                "UNI_LETTER", "UNI_DIGIT", "UNI_MARK", "9lives", "has-dash"} }
 Directives == {"none", "unknown", "sealedexpr", "unionlate", "deprtwice", "uniontwice", "deprlate", "assertnoexpr", "assertnonbool", "extnoexpr"}
 
 Skeleton == [ft |-> FT("uint", 8, "", "none", 0), name |-> [t |-> "value", legal |-> TRUE], dup |-> "none", kind |-> "struct",
